@@ -3,7 +3,7 @@ import ast
 
 from sa.core import (AnalysisError, FUNC, assignments, call_name, class_attr, const, dotted, enclosing, enclosing_func,
                      enclosing_stmt, is_attr, is_name, is_self_attr, literal, norm, params, parent, walk_local, names_in, ancestors)
-from sa.guards import facts, enclosing_loops
+from sa.guards import canon_test, facts, enclosing_loops
 from sa.finite import Interp, C, K, TOP
 
 PROP = "C18"
@@ -186,7 +186,10 @@ def run(cx):
         if ok:
             nm = norm(gen.target.elts[1])
             conds = [norm(c) for c in gen.ifs]
-            ok = conds in ([nm], [f"{nm} != ''"], [f"len({nm}) > 0"], [f"bool({nm})"])
+            # "has a title", however spelled: name / name != '' / len(name) > 0 / bool(name) (and their mirrored / negated forms)
+            cts = canon_test(gen.ifs[0]) if len(gen.ifs) == 1 else set()
+            ok = len(cts) == 1 and next(iter(cts)) in (("expr", nm, "", True), ("==", *sorted((nm, "''")), False), ("<", "0", f"len({nm})", True),
+                                                       ("==", *sorted(("0", f"len({nm})")), False), ("expr", f"bool({nm})", "", True))
             why = f"the ladder starts at the first column satisfying `{' and '.join(conds) or 'True'}`, not at the first titled column: blank cells in leading titled columns the condition leaves out " \
                   "(ranged groups, columns no rule names) are not filled from above, so the objects differ from those of the filled-in table and origins point at blank cells"
     cx.ob("R18d", fc[0][0] if fc else it, ok, "the ladder starts at the first titled column" if ok else why, stmt="ladder start column")
